@@ -44,6 +44,8 @@ T = [
 ("C05","fix: MemFS.RemoveAll left the entries of deleted nodes","MemFS.RemoveAll: a refused RemoveAll, or one running next to a Rename out of the tree, left directory entries naming nodes it had already deleted (size 0, link count 0; link counter of the survivors wrong)"),
 ("C08","fix: MemFS cleared the target of a removed symbolic link","data race between MemFS.searchNode (reads the target of a symbolic link without the node lock) and Remove/RemoveAll/Rename resetting the target of the link they remove or replace (3 threads: OpenFile || Rename onto the link || Symlink)"),
 ("C06","fix: MemFS.Link acted on a source that a concurrent Remove","MemFS.Link || Remove/Rename of its source (also with a third thread creating the new name): Link added a name for an already removed file, or answered EEXIST where every sequential order gives ENOENT (source never re-validated once the destination directory was locked)"),
+("C06","fix: MemFS.OpenFile(O_CREATE) opened a symbolic link node as a file","MemFS OpenFile(O_CREATE) || Symlink/Rename putting a symbolic link at the same name: the open returned a handle on the link node itself (Write: EBADF) instead of following the link or failing"),
+("C06","fix: MemFS.MkdirAll returned nil without creating anything","MemFS.MkdirAll || Mkdir/OpenFile(O_CREATE)/Link/Symlink/Rename creating its first missing element: MkdirAll returned nil and created nothing below the new entry (or below a non-directory)"),
 ]
 log = subprocess.check_output(['git','-C','/repo','log','--format=%h %s','adfd2e3..HEAD']).decode().strip().split('\n')
 subj = {}
